@@ -59,7 +59,7 @@ CHECKS = {
          "DESIGN.md §6 C10", "seqx"),
  "C11": ("model_checking",
          "explicit-state BFS over consumer lifecycle histories through the real dispatch (probe) with a reference model, plus deviation-bounded exploration with real Consumer objects",
-         "seqx: BFS to depth 7 (thorough 9; 8k / 31k states) over ConsumeOk, bodyless deliveries, client cancel request, CancelOk, server Cancel (nowait or not), server/client channel close, server/client connection close on tags {a,b} x channels {1,2} in every protocol-legal order; every consumer queue compared after every event (deliveries in order, exactly one terminal of the right kind, then disconnected; CancelOk written iff not nowait). simx: real Consumer objects - cancel twice, drop, forget + channel close, cancel with CancelOk withheld while deliveries keep arriving, server cancel then client cancel, connection dropped - with three deliveries pushed at any point, within 3 (thorough 4) deviations.",
+         "seqx: BFS to depth 7 (thorough 9; 8k / 31k states) over ConsumeOk, bodyless deliveries, client cancel request, CancelOk, server Cancel (nowait or not), server/client channel close, server/client connection close on tags {a,b} x channels {1,2} in every protocol-legal order; every consumer queue compared after every event (deliveries in order, exactly one terminal of the right kind, then disconnected; CancelOk written iff not nowait). simx: real Consumer objects - cancel twice, drop, forget + channel close, cancel with CancelOk withheld while deliveries keep arriving, server cancel then client cancel, connection dropped - with three deliveries pushed at any point, within 3 (thorough 4) deviations; scenario consumer-race: two consumers on channel 1 and one on channel 2, a cancel in flight while the server closes channel 1 or the connection at any point, mem_channel_bound 1 and 16, within 2 (thorough 3) deviations - every queue carries only its own tag's deliveries, then exactly one terminal naming the true cause.",
          "Two tags, two channels; deliveries are bodyless in the lifecycle search.",
          "DESIGN.md §6 C11", "seqx+simx"),
  "C12": ("exploration",
